@@ -863,6 +863,7 @@ def units(tier, seed):
     add('eigh1/out= buffers reused for a matrix with another block structure/D2', 'h_eigh1_out_reused', o={'validate_values': False}, D=2)
     add('eigh/2x2 eigenvalue repeated at orders 0 and 1, split at order 2/D3,P1', 'h_eigh_split_late', D=3, P=1)
     add('eigh/2x2 eigenvalue repeated at orders 0..2, split at order 3/D4,P1', 'h_eigh_split_late', D=4, P=1, k=3)
+    add('eigh/2x2 eigenvalue repeated at orders 0 and 1, split at order 2/D5,P1', 'h_eigh_split_late', D=5, P=1, k=2)
     add('eigh/3x3 triple eigenvalue, split at order 1/D2,P1', 'h_eigh_split_late', D=2, P=1, k=1, n=3)
     add('eigh/3x3 triple eigenvalue at orders 0 and 1, split at order 2/D3,P1', 'h_eigh_split_late', D=3, P=1, k=2, n=3)
     if tier != 'quick':
